@@ -196,6 +196,45 @@ def run_reformat_twin(prop: str, root: str, known) -> tuple[str, str]:
         shutil.rmtree(tmp, ignore_errors=True)
 
 
+def run_alpha_twin(prop: str, root: str, known) -> tuple[str, str]:
+    """The second whole-tree benign twin: every renamable function local of every Python source is
+    renamed (sa/alpha.py).  The verdict and the instance key of every obligation must stay what they
+    are on the tree itself: no rule may depend on how a local is spelled (sa/canon.py gives locals
+    their reference spelling back before the rules run; this twin shows that it does)."""
+    from . import alpha
+    from .run import analyse
+
+    tmp = tempfile.mkdtemp(prefix="sa_alpha_")
+    try:
+        base = os.path.join(root, "src", "basilisp")
+        n = 0
+        for d, _dn, fs in os.walk(base):
+            for f in fs:
+                if not f.endswith(".py"):
+                    continue
+                p = os.path.join(d, f)
+                with open(p, encoding="utf-8") as fh:
+                    out, k = alpha.rename_locals(fh.read())
+                n += k
+                dst = os.path.join(tmp, os.path.relpath(p, root))
+                os.makedirs(os.path.dirname(dst), exist_ok=True)
+                with open(dst, "w", encoding="utf-8") as fh:
+                    fh.write(out)
+        try:
+            ref, _p, _m = analyse(prop, "quick", root, known=known)
+            ctx, _p, _m = analyse(prop, "quick", root, overlay=tmp, known=known)
+        except core.AnalysisError as ex:
+            return "FAIL", f"whole-tree local-renaming twin: analysis error: {ex}"
+        a = {(o.rule, o.instance): o.status for o in ref.obligations}
+        b = {(o.rule, o.instance): o.status for o in ctx.obligations}
+        if a != b:
+            diff = sorted(set(a.items()) ^ set(b.items()))[:3]
+            return "FAIL", f"whole-tree local-renaming twin ({n} locals renamed): verdicts differ on a behaviour-preserving rewrite: {diff}"
+        return "ok", f"whole-tree local-renaming twin: {n} locals renamed, {len(b)} obligations, same verdicts"
+    finally:
+        shutil.rmtree(tmp, ignore_errors=True)
+
+
 def run_for(prop: str, root: str) -> dict:
     mod = importlib.import_module(f"sa.rules.{prop}")
     cases = list(getattr(mod, "SELFTEST", []))
@@ -203,6 +242,12 @@ def run_for(prop: str, root: str) -> dict:
     res = {"mutants": 0, "fired": 0, "twins": 0, "silent": 0, "stale": 0, "cases": []}
     failures = []
     outcome, msg = run_reformat_twin(prop, root, known)
+    res["cases"].append(f"{outcome}: {msg}")
+    res["twins"] += 1
+    res["silent"] += outcome == "ok"
+    if outcome == "FAIL":
+        failures.append(msg)
+    outcome, msg = run_alpha_twin(prop, root, known)
     res["cases"].append(f"{outcome}: {msg}")
     res["twins"] += 1
     res["silent"] += outcome == "ok"
